@@ -415,7 +415,7 @@ func runStopDuringClose() (*cloObs, string) {
 //          stops the writer too, and must not wait for the stalled peer either (C10)
 // kind 12: the stalled client has sent DISCONNECT, then the broker is stopped: Stop returns AND the connection is closed
 //          (C20 "every open connection is closed"), seen by the client, which still reads nothing, in its own writes
-// kind 3: not stalled but SLOW: a v5 client that keeps reading (64 bytes per millisecond) while 30 KB are on their way
+// kind 3: not stalled but SLOW: a v5 client that keeps reading (64 bytes per millisecond) while 19 KB are on their way
 //         to it is taken over (C10: the new CONNECT is answered; the old connection gets "DISCONNECT 'session taken
 //         over'" - as a packet: everything it is sent decodes, and that DISCONNECT is the last thing before the end)
 
@@ -670,7 +670,7 @@ func runSlowTakeover() (*stallObs, string) {
 	for i := range payload {
 		payload[i] = 'x'
 	}
-	for i := 0; i < 300; i++ {
+	for i := 0; i < 180; i++ {
 		_ = pa.SendL(mkPublish(mqttp.ProtocolV311, "t", payload, 0, false, 0))
 	}
 	// the take-over arrives while the old connection's writer is in the middle of that backlog
